@@ -131,3 +131,20 @@ impl Default for Symbols {
     #[verifier::external_body]
     fn default() -> (r: Self) ensures r.0@ == Map::<String, Value>::empty() { unimplemented!() }
 }
+
+// R6: `lazy_static! { static ref EMPTY_RULES: RuleSet = Default::default(); }` -- ASSUMED: derived Default = no rules,
+// no functions, no symbols
+pub uninterp spec fn empty_rules_spec() -> RuleSet;
+pub mod ax_empty {
+use super::*;
+#[verifier::external_body]
+pub broadcast proof fn axiom_empty_rules()
+    ensures
+        (#[trigger] empty_rules_spec()).rules@.len() == 0,
+        empty_rules_spec().functions.functions@ == Map::<&'static str, BoxedFunction>::empty(),
+        empty_rules_spec().symbols.0@ == Map::<String, Value>::empty(),
+{}
+}
+pub use ax_empty::*;
+#[verifier::external_body]
+pub fn empty_rules() -> (r: &'static RuleSet) ensures *r == empty_rules_spec() { unimplemented!() }
